@@ -208,6 +208,35 @@ def f_time_of_day():
     return not (f.raw_value == 86400.0 and f.value == datetime.time(0, 0)), f"126992 time raw {f.raw_value} s (database range 0..86401) is reported as {f.value}"
 
 
+@finding("C04/reused-counter-merge/128275", "C04")
+def f_reused_counter_merge():
+    """the library's encoder keeps ONE sequence counter for all fast-packet messages: after 7 other fast messages the next message of a stream
+    carries the counter of the previous one.  If that previous message had lost a frame, the decoder took the new first frame for a duplicate
+    and completed a message out of the leftovers of the old one and the later frames of the new one"""
+    from nmea2000.encoder import NMEA2000Encoder
+    from nmea2000.decoder import NMEA2000Decoder
+    from nmea2000.message import NMEA2000Message, NMEA2000Field
+    e, d = NMEA2000Encoder(), NMEA2000Decoder()
+
+    def dist(log):
+        return NMEA2000Message(PGN=128275, id="distanceLog", source=1, destination=255, priority=6, fields=[
+            NMEA2000Field("date", value=None, raw_value=18000 + log % 7), NMEA2000Field("time", value=None, raw_value=10.0 + log % 5),
+            NMEA2000Field("log", value=log, raw_value=log), NMEA2000Field("tripLog", value=log // 100, raw_value=log // 100)])
+    first = e.encode_ebyte(dist(1001))
+    for pk in first[:-1]:                                   # the last frame of the first message is lost
+        d.decode_tcp(pk)
+    other = NMEA2000Message(PGN=128275, id="distanceLog", source=2, destination=255, priority=6, fields=dist(5).fields)
+    for _ in range(7):                                      # 7 fast messages of another stream: the counter comes round
+        for pk in e.encode_ebyte(other):
+            d.decode_tcp(pk)
+    second = e.encode_ebyte(dist(2003))
+    outs = [d.decode_tcp(pk) for pk in second]
+    same_counter = first[0][5] >> 5 == second[0][5] >> 5
+    got = [None if o is None else o.get_field_by_id("log").value for o in outs]
+    return same_counter and got[:-1] == [None] * (len(got) - 1) and got[-1] == 2003, \
+        f"same counter: {same_counter}; per-frame results for the second message (log 2003): {got}"
+
+
 # ---------------------------------------------------------------- C06
 @finding("C06/ebyte-short-frame/59904", "C06")
 def f_ebyte_13():
